@@ -88,6 +88,122 @@ def inline_axis_helpers(fn, helpers):
     return fn
 
 
+def rpy_convention(ctx):
+    """URDF's <origin rpy="r p y"> is a FIXED-AXIS sequence: roll about X, then pitch about Y, then yaw about Z, i.e. R = Rz(y) Ry(p) Rx(r).
+    The nine entries of whatever rpy_to_A returns are brought to a signed-monomial normal form in cos / sin of the three angles (literal
+    matrix, or a product of basic rotations; products distribute, opposite terms cancel) and compared with the same normal form of
+    Rz Ry Rx built here from the convention.  The reverse order Rx Ry Rz agrees whenever at most one angle is non-zero - which is all the
+    shipped robot descriptions use - and places every link behind a compound origin away from its forward-kinematics pose while all
+    joint constraints stay satisfied (the joints are defined from the same wrong frames)."""
+    rep = ctx.rep
+    fn = ctx.repo.maybe(URDF, "rpy_to_A")
+    C = f"{URDF}:rpy_to_A"
+    if fn is None:
+        raise AnalysisError(f"{URDF}: rpy_to_A vanished")
+    ANG = ("r", "p", "y")
+    angle_of, trig = {}, {}
+    param = fn.args.args[0].arg
+    for st in ast.walk(fn):
+        if isinstance(st, ast.Assign) and len(st.targets) == 1 and isinstance(st.targets[0], ast.Tuple) and len(st.targets[0].elts) == 3 and isinstance(st.value, ast.Call):
+            names = [e.id for e in st.targets[0].elts if isinstance(e, ast.Name)]
+            last = (dotted(st.value.func) or "").split(".")[-1]
+            src_is_rpy = any(isinstance(w, ast.Name) and w.id == param for w in ast.walk(st.value))
+            if len(names) == 3 and src_is_rpy:
+                if last in ("cos", "sin"):
+                    for nm, a in zip(names, ANG):
+                        trig[nm] = ("c" if last == "cos" else "s") + a
+                else:
+                    for nm, a in zip(names, ANG):
+                        angle_of[nm] = a
+        elif isinstance(st, ast.Assign) and len(st.targets) == 1 and isinstance(st.targets[0], ast.Name) and isinstance(st.value, ast.Subscript) \
+                and isinstance(st.value.value, ast.Name) and st.value.value.id == param and isinstance(st.value.slice, ast.Constant) and st.value.slice.value in (0, 1, 2):
+            angle_of[st.targets[0].id] = ANG[st.value.slice.value]
+
+    def angle(e):
+        if isinstance(e, ast.Name) and e.id in angle_of:
+            return angle_of[e.id]
+        if isinstance(e, ast.Subscript) and isinstance(e.value, ast.Name) and e.value.id == param and isinstance(e.slice, ast.Constant) and e.slice.value in (0, 1, 2):
+            return ANG[e.slice.value]
+        return None
+
+    def norm_terms(ts):
+        acc = {}
+        for sgn, f in ts:
+            f = tuple(sorted(f))
+            acc[f] = acc.get(f, 0) + sgn
+        return {f: c for f, c in acc.items() if c != 0}
+
+    def sc(e):
+        if isinstance(e, ast.Constant) and isinstance(e.value, (int, float)):
+            return [] if e.value == 0 else [(1 if e.value > 0 else -1, ())] if abs(e.value) == 1 else None
+        if isinstance(e, ast.Name):
+            if e.id in trig:
+                return [(1, (trig[e.id],))]
+            return None
+        if isinstance(e, ast.Call) and (dotted(e.func) or "").split(".")[-1] in ("cos", "sin") and len(e.args) == 1:
+            a = angle(e.args[0])
+            return None if a is None else [(1, (("c" if dotted(e.func).endswith("cos") else "s") + a,))]
+        if isinstance(e, ast.UnaryOp) and isinstance(e.op, ast.USub):
+            r = sc(e.operand)
+            return None if r is None else [(-s_, f) for s_, f in r]
+        if isinstance(e, ast.BinOp) and isinstance(e.op, (ast.Add, ast.Sub)):
+            a, b = sc(e.left), sc(e.right)
+            if a is None or b is None:
+                return None
+            return a + ([(-s_, f) for s_, f in b] if isinstance(e.op, ast.Sub) else b)
+        if isinstance(e, ast.BinOp) and isinstance(e.op, ast.Mult):
+            a, b = sc(e.left), sc(e.right)
+            if a is None or b is None:
+                return None
+            return [(s1 * s2, f1 + f2) for s1, f1 in a for s2, f2 in b]
+        return None
+
+    def basic(axis, a):
+        c, s_ = [(1, ("c" + a,))], [(1, ("s" + a,))]
+        ms = [(-1, ("s" + a,))]
+        one, z = [(1, ())], []
+        return {"x": [[one, z, z], [z, c, ms], [z, s_, c]], "y": [[c, z, s_], [z, one, z], [ms, z, c]], "z": [[c, ms, z], [s_, c, z], [z, z, one]]}[axis]
+
+    def mm(A, B):
+        return [[[(s1 * s2, f1 + f2) for k in range(3) for s1, f1 in A[i][k] for s2, f2 in B[k][j]] for j in range(3)] for i in range(3)]
+
+    def mat(e):
+        if isinstance(e, ast.Call) and (dotted(e.func) or "").split(".")[-1] in ("array", "asarray") and e.args and isinstance(e.args[0], (ast.List, ast.Tuple)) \
+                and len(e.args[0].elts) == 3 and all(isinstance(r, (ast.List, ast.Tuple)) and len(r.elts) == 3 for r in e.args[0].elts):
+            M = [[sc(x) for x in r.elts] for r in e.args[0].elts]
+            return None if any(x is None for r in M for x in r) else M
+        if isinstance(e, ast.Attribute) and e.attr in ("x", "y", "z") and isinstance(e.value, ast.Call) and (dotted(e.value.func) or "").split(".")[-1] == "A_IB_basic" and e.value.args:
+            a = angle(e.value.args[0])
+            return None if a is None else basic(e.attr, a)
+        if isinstance(e, ast.Attribute) and e.attr == "T":
+            M = mat(e.value)
+            return None if M is None else [[M[j][i] for j in range(3)] for i in range(3)]
+        if isinstance(e, ast.BinOp) and isinstance(e.op, ast.MatMult):
+            A, B = mat(e.left), mat(e.right)
+            return None if A is None or B is None else mm(A, B)
+        if isinstance(e, ast.Name):
+            ds = [st.value for st in ast.walk(fn) if isinstance(st, ast.Assign) and len(st.targets) == 1 and isinstance(st.targets[0], ast.Name) and st.targets[0].id == e.id]
+            return mat(ds[0]) if len(ds) == 1 else None
+        return None
+    rets = [r.value for r in ast.walk(fn) if isinstance(r, ast.Return) and r.value is not None]
+    got = mat(rets[0]) if rets else None
+    if got is None:
+        rep.ok("C28.R11", C, "the returned rotation is not a literal matrix or a product of basic rotations the analysis reads (no verdict)", verdict="unknown", trivial=True)
+        return
+    want = mm(mm(basic("z", "y"), basic("y", "p")), basic("x", "r"))
+    bad = [(i, j) for i in range(3) for j in range(3) if norm_terms(got[i][j]) != norm_terms(want[i][j])]
+    if not bad:
+        rep.ok("C28.R11", C, "all nine entries equal those of Rz(yaw) Ry(pitch) Rx(roll) (URDF's fixed-axis roll-pitch-yaw)")
+    else:
+        i, j = bad[0]
+        show = lambda d: " + ".join(("-" if c < 0 else "") + "*".join(f or ("1",)) for f, c in sorted(d.items())) or "0"
+        rev = mm(mm(basic("x", "r"), basic("y", "p")), basic("z", "y"))
+        hint = " (it is Rx(roll) Ry(pitch) Rz(yaw), the reverse order)" if all(norm_terms(got[a][b]) == norm_terms(rev[a][b]) for a in range(3) for b in range(3)) else ""
+        rep.bad("C28.R11", C, rets[0], f"rpy_to_A does not return Rz(yaw) Ry(pitch) Rx(roll){hint}: entry [{i}][{j}] is `{show(norm_terms(got[i][j]))}` instead of `{show(norm_terms(want[i][j]))}` "
+                f"({len(bad)} of 9 entries differ); an <origin> with two non-zero angles puts the link and its whole subtree away from the forward-kinematics pose although every joint "
+                "constraint is satisfied", f"{URDF}:{rets[0].lineno}")
+
+
 def transport_rule(ctx):
     """An ABSOLUTE velocity (v_R, v_C: of a point relative to the inertial frame I) is composed as v_parent + omega x r + relative velocity,
     where omega is the ABSOLUTE angular velocity of the frame the lever arm r is fixed in / expressed in.  Under the code base's naming
@@ -298,6 +414,8 @@ def run(ctx):
     basis_typing(ctx)
     rep.rule("C28.R7", "axis-bearing joint types build the joint frame and the child's relative motion from joint.axis (taint)", 6)
     axis_used(ctx)
+    rep.rule("C28.R11", "rpy_to_A composes URDF's fixed-axis roll-pitch-yaw as Rz(yaw) Ry(pitch) Rx(roll) (signed-monomial normal form of the nine entries)", 1)
+    rpy_convention(ctx)
     rep.rule("C28.R10", "transport terms of absolute velocities use absolute angular velocities (naming convention X_omega_YZ: Y = I)", 2)
     transport_rule(ctx)
     rep.rule("C28.R9", "a joint's optional <axis> element is read with URDF's default", 1)
@@ -514,4 +632,16 @@ NEUTRAL += [
 MUTANTS += [
     dict(id="c28-r10-seed", canary=True, what="[seeded by sub-agent] child velocity transported with the relative joint angular velocity", file=URDF,
          old="                + A_RpJ @ (J_v_JRc + cross3(J_omega_IRc, J_r_JRc))\n", new="                + A_RpJ @ (J_v_JRc + cross3(J_omega_JRc, J_r_JRc))\n", expect="C28.R10"),
+]
+MUTANTS += [
+    dict(id="c28-r11-seed", canary=True, what="[seeded by sub-agent] rpy_to_A as a product of basic rotations in the reverse order", file=URDF,
+         old="    rpy = np.asanyarray(rpy, dtype=np.float64)\n    c3, c2, c1 = np.cos(rpy)\n",
+         new="    roll, pitch, yaw = np.asanyarray(rpy, dtype=np.float64)\n    return A_IB_basic(roll).x @ A_IB_basic(pitch).y @ A_IB_basic(yaw).z\n    c3, c2, c1 = np.cos(rpy)\n", expect="C28.R11"),
+    dict(id="c28-r11-2", what="rpy_to_A: one sign of the literal matrix flipped", file=URDF,
+         old="            [-s2, c2 * s3, c2 * c3],\n", new="            [s2, c2 * s3, c2 * c3],\n", expect="C28.R11"),
+]
+NEUTRAL += [
+    dict(id="c28-n-r11", canary=True, what="rpy_to_A as the product Rz(yaw) Ry(pitch) Rx(roll) of basic rotations", file=URDF,
+         old="    rpy = np.asanyarray(rpy, dtype=np.float64)\n    c3, c2, c1 = np.cos(rpy)\n",
+         new="    roll, pitch, yaw = np.asanyarray(rpy, dtype=np.float64)\n    return A_IB_basic(yaw).z @ A_IB_basic(pitch).y @ A_IB_basic(roll).x\n    c3, c2, c1 = np.cos(rpy)\n"),
 ]
